@@ -263,6 +263,25 @@ emit("end")
 for k = 1, #fs do emit(k, (fs[k]())) end
 `
 
+// the control expressions are bare local variables that the body assigns to,
+// directly and through a closure: "the three control expressions are evaluated
+// only once, before the loop starts", so the iteration is not disturbed; and the
+// loop must not write its normalised limit/step back into those variables
+const srcCtrl = `local a, b, c = ...
+local n = 0
+local function poke() b, c = b, c; if n == 2 then b = -b; c = -c end end
+for i = a, b, c do
+  n = n + 1
+  if n > 8 then emit("more") break end
+  emit(i, math.type(i))
+  if n == 1 then emit("seen", a, b, c) end
+  if n == 2 then poke() end
+  if n == 3 then a, b, c = nil, "limit changed", "step changed" end
+end
+emit("end")
+emit(n, a, b, c)
+`
+
 const srcCount = `local a, b, c = ...
 local n, first, last = 0, nil, nil
 for i = a, b, c do
@@ -297,7 +316,7 @@ func (e *evaluator) reset() {
 	}
 	e.sess = gl.NewSess(gl.Options{})
 	e.fn = map[string]rt.Value{}
-	for name, src := range map[string]string{"plain": srcPlain, "nostep": srcNoStep, "calls": srcCalls, "body": srcBody, "count": srcCount} {
+	for name, src := range map[string]string{"plain": srcPlain, "nostep": srcNoStep, "calls": srcCalls, "body": srcBody, "count": srcCount, "ctrl": srcCtrl} {
 		clos, out := e.sess.Compile("c16-"+name, src)
 		if out != nil {
 			e.c.Violation("compile", "chunk "+name+" does not compile", out.ErrMsg+out.PanicMsg, src)
@@ -638,6 +657,59 @@ func (e *evaluator) shapeBody(t tcase, exp Expect) {
 	c.Feature("closures-checked", int64(len(o.post)))
 }
 
+// shapeCtrl: the control variables are assigned inside the loop.
+func (e *evaluator) shapeCtrl(t tcase, exp Expect) {
+	c := e.c
+	out := e.run("ctrl", cpuCapped, t.a, t.b, t.c)
+	c.Eval(1)
+	// the ("seen", a, b, c) event of the first iteration is taken out before the common parsing
+	var seen string
+	part := *out
+	part.Trace = nil
+	for _, ev := range out.Trace {
+		if strings.HasPrefix(ev, `s:"seen",`) {
+			seen = ev
+			continue
+		}
+		part.Trace = append(part.Trace, ev)
+	}
+	o, ok := e.checkOutcome("ctrl", t, exp, &part, 0)
+	if !ok {
+		return
+	}
+	if !e.checkSeq("ctrl", t, exp, &part, o) {
+		return
+	}
+	orig := t.a.Enc() + "," + t.b.Enc() + "," + t.c.Enc()
+	if len(o.vals) >= 1 && seen != `s:"seen",`+orig {
+		c.Violation("mismatch", t.sig("ctrl", exp.Kind, "control-variables-rewritten"),
+			fmt.Sprintf("with %s: inside the first iteration the variables used as control expressions hold %s, they were given %s (the loop wrote its own copies back)", t.in, seen, orig), t.in)
+		return
+	}
+	if len(o.post) != 1 {
+		c.Violation("mismatch", t.sig("ctrl", exp.Kind, "no-final-event"), fmt.Sprintf("with %s: %s", t.in, strings.Join(out.Trace, " | ")), t.in)
+		return
+	}
+	n := len(o.vals)
+	if o.more {
+		n++
+	}
+	var want string
+	switch {
+	case n >= 3:
+		want = fmt.Sprintf(`i:%d,n,s:"limit changed",s:"step changed"`, n)
+	case n == 2:
+		// poke negated limit and step (whatever that gives): only a and the count are fixed
+		want = ""
+	default:
+		want = fmt.Sprintf("i:%d,%s", n, orig)
+	}
+	if want != "" && o.post[0] != want {
+		c.Violation("mismatch", t.sig("ctrl", exp.Kind, "control-variables-after-loop"),
+			fmt.Sprintf("with %s: after the loop (n, a, b, c) = %s, expected %s", t.in, o.post[0], want), t.in)
+	}
+}
+
 func (e *evaluator) shapeCount(t tcase) {
 	c := e.c
 	n, first, last, ok := Count(t.a, t.b, t.c, countMax)
@@ -697,6 +769,7 @@ func (e *evaluator) triple(a, b, cc nm.V) {
 	o, ok := e.shapePlain(t, exp)
 	e.shapeCalls(t, exp)
 	e.shapeBody(t, exp)
+	e.shapeCtrl(t, exp)
 	if cc.K == nm.Int && cc.I == 1 {
 		e.shapeNoStep(t)
 	}
